@@ -23,15 +23,31 @@ enum Present { None, All, Only(usize) }
 #[derive(Clone, Copy, PartialEq)]
 enum Reps { One, Max, Two }
 
-struct Plan { present: Present, letter_k: usize, reps: Reps }
+#[derive(Clone, Copy, PartialEq)]
+enum Pick { Random, Longest, Shortest, Lookalike }
 
-struct Ctx<'a> { rng: &'a mut Rng, pool: &'a Pool, opt_counter: usize, seq_counter: usize, code: u32 }
+struct Plan { present: Present, letter_k: usize, reps: Reps, pick: Pick }
+
+struct Ctx<'a> { rng: &'a mut Rng, pool: &'a Pool, opt_counter: usize, seq_counter: usize, code: u32, pick: Pick }
 
 /// (chunk, sequence-occurrence path)
 type Placed = (Chunk, Vec<usize>);
 
 fn content_for(ctx: &mut Ctx, tag: &str) -> String {
-    ctx.pool.by_tag.get(tag).map(|v| ctx.rng.pick(v).clone()).unwrap_or_else(|| "X".to_string())
+    match ctx.pool.by_tag.get(tag) {
+        None => "X".to_string(),
+        Some(v) => match ctx.pick {
+            Pick::Random => ctx.rng.pick(v).clone(),
+            // boundary-length components: the longest / shortest canonical content known for the tag (ties broken at random)
+            Pick::Longest => { let m = v.iter().map(|c| c.chars().count()).max().unwrap_or(0); let c: Vec<&String> = v.iter().filter(|c| c.chars().count() == m).collect(); (*ctx.rng.pick(&c)).clone() }
+            // contents whose shape belongs to another option of the family (see the directed list in `run`)
+            Pick::Lookalike => {
+                let c: Vec<&String> = v.iter().filter(|c| ["ACMECORP", "/12345678\nDEUTSCHBANK", "1/2 PRICE STORES LTD", "/ACC123\n1/NAME ONLY\n2/STREET", "DEUTDEFF", "/12345678", "CHASUS33", "12345678CHASUS33"].contains(&c.as_str())).collect();
+                if c.is_empty() { ctx.rng.pick(v).clone() } else { (*ctx.rng.pick(&c)).clone() }
+            }
+            Pick::Shortest => { let m = v.iter().map(|c| c.chars().count()).min().unwrap_or(0); let c: Vec<&String> = v.iter().filter(|c| c.chars().count() == m).collect(); (*ctx.rng.pick(&c)).clone() }
+        },
+    }
 }
 
 fn build(items: &[Item], plan: &Plan, ctx: &mut Ctx, path: &[usize], out: &mut Vec<Placed>, prev_seq_empty: &mut bool) {
@@ -241,6 +257,15 @@ pub fn run(o: &Opts) -> Report {
     let grammars: BTreeMap<u32, Grammar> = mgen::load_grammars();
     let mut pool = mgen::build_pool(if o.thorough() { 6 } else { 2 });
     mgen::add_spec_contents(&mut pool, &mut rng, if o.thorough() { 30 } else { 6 }, true);
+    // letter-less members of option families whose content also has the shape of another option (a name line that looks
+    // like a BIC or like a numbered line): the tag, not the content, decides the variant
+    for (t, c) in [("59", "ACMECORP"), ("59", "/12345678\nDEUTSCHBANK"), ("59", "1/2 PRICE STORES LTD"), ("59", "/ACC123\n1/NAME ONLY\n2/STREET"),
+                   ("50", "DEUTDEFF"), ("50", "/12345678"), ("25", "CHASUS33"), ("25", "12345678CHASUS33")] {
+        let v = pool.by_tag.entry(t.to_string()).or_default();
+        if !v.contains(&c.to_string()) {
+            v.push(c.to_string());
+        }
+    }
     // "each field in the library's own canonical spelling": every pool content is replaced by what the field's own
     // serialiser writes for it, and kept only when that spelling is a fixed point at field level (anything else is a
     // C02 matter, judged by the fields stream)
@@ -248,7 +273,9 @@ pub fn run(o: &Opts) -> Report {
         let Some(ty) = type_of_tag(tag) else { continue };
         let mut w: Vec<String> = Vec::new();
         for c in v.iter() {
-            let Outcome::Ok { ser, .. } = parse_named(ty, c) else { continue };
+            // a content the field parser rejects stays in the pool as written (the spec-derived ones are valid by the
+            // documented format): the message-level oracle then reports the rejection
+            let Outcome::Ok { ser, .. } = parse_named(ty, c) else { if !w.contains(c) { w.push(c.clone()); } continue };
             let c2 = ser.splitn(3, ':').nth(2).unwrap_or("").to_string();
             if c2.is_empty() || c2.split('\n').any(|l| l.starts_with(':') || l.starts_with('-')) { continue; }
             match parse_named(ty, &c2) {
@@ -263,20 +290,27 @@ pub fn run(o: &Opts) -> Report {
         let Some(g) = grammars.get(&code) else { continue };
         let nopt = count_optionals(g);
         let nlet = max_letters(g);
-        let mut plans: Vec<(String, Plan)> = vec![("minimal".into(), Plan { present: Present::None, letter_k: 0, reps: Reps::One })];
+        let mut plans: Vec<(String, Plan)> = vec![("minimal".into(), Plan { present: Present::None, letter_k: 0, reps: Reps::One, pick: Pick::Random })];
         for k in 0..nlet {
-            plans.push((format!("full:letter{k}"), Plan { present: Present::All, letter_k: k, reps: Reps::One }));
-            plans.push((format!("minimal:letter{k}"), Plan { present: Present::None, letter_k: k, reps: Reps::One }));
+            plans.push((format!("full:letter{k}"), Plan { present: Present::All, letter_k: k, reps: Reps::One, pick: Pick::Random }));
+            plans.push((format!("minimal:letter{k}"), Plan { present: Present::None, letter_k: k, reps: Reps::One, pick: Pick::Random }));
         }
         for i in 0..nopt {
-            plans.push((format!("single:{i}"), Plan { present: Present::Only(i), letter_k: i % nlet.max(1), reps: Reps::One }));
+            plans.push((format!("single:{i}"), Plan { present: Present::Only(i), letter_k: i % nlet.max(1), reps: Reps::One, pick: Pick::Random }));
         }
-        plans.push(("reps:max".into(), Plan { present: Present::All, letter_k: 1, reps: Reps::Max }));
-        plans.push(("reps:max-minimal".into(), Plan { present: Present::None, letter_k: 0, reps: Reps::Max }));
-        plans.push(("reps:two".into(), Plan { present: Present::All, letter_k: 2, reps: Reps::Two }));
+        for k in 0..nlet {
+            plans.push((format!("full:longest{k}"), Plan { present: Present::All, letter_k: k, reps: Reps::Two, pick: Pick::Longest }));
+            plans.push((format!("full:shortest{k}"), Plan { present: Present::All, letter_k: k, reps: Reps::One, pick: Pick::Shortest }));
+        }
+        for k in 0..(nlet.max(1) * 3) {
+            plans.push((format!("full:lookalike{k}"), Plan { present: Present::All, letter_k: k % nlet.max(1), reps: Reps::One, pick: Pick::Lookalike }));
+        }
+        plans.push(("reps:max".into(), Plan { present: Present::All, letter_k: 1, reps: Reps::Max, pick: Pick::Random }));
+        plans.push(("reps:max-minimal".into(), Plan { present: Present::None, letter_k: 0, reps: Reps::Max, pick: Pick::Random }));
+        plans.push(("reps:two".into(), Plan { present: Present::All, letter_k: 2, reps: Reps::Two, pick: Pick::Random }));
         for _ in 0..rounds {
             for (name, plan) in &plans {
-                let mut ctx = Ctx { rng: &mut rng, pool: &pool, opt_counter: 0, seq_counter: 0, code };
+                let mut ctx = Ctx { rng: &mut rng, pool: &pool, opt_counter: 0, seq_counter: 0, code, pick: plan.pick };
                 let mut placed = Vec::new();
                 let mut pse = true;
                 build(g, plan, &mut ctx, &[], &mut placed, &mut pse);
